@@ -58,6 +58,31 @@ def round_trip_tasks(problem):
             if a != b:
                 diffs.append(f"task {t.name}: definition changed by the JSON round trip: " +
                              ", ".join(f"{k}: {a[k]!r} -> {b[k]!r}" for k in a if a[k] != b[k]))
+        # the same definitions through the problem's own importer (`SchedulingProblem.add_from_json`), in a third problem
+        kw["name"] = "json_round_trip_import"
+        pb3 = ps.SchedulingProblem(**kw)
+        for t, js in texts:
+            try:
+                t3 = pb3.add_from_json(js)
+            except Exception as e:  # noqa: BLE001
+                diffs.append(f"task {t.name}: add_from_json raised {type(e).__name__}: {str(e)[:120]}")
+                continue
+            a, c = task_fields(t), task_fields(t3)
+            if type(t3) is not type(t) or a != c:
+                diffs.append(f"task {t.name}: definition changed by to_json + add_from_json: " +
+                             ", ".join(f"{k}: {a[k]!r} -> {c[k]!r}" for k in a if a[k] != c[k]))
+        for w in problem.workers.values():
+            if "_CumulativeWorker_" in w.name:
+                continue
+            try:
+                w3 = pb3.add_from_json(w.to_json())
+            except Exception as e:  # noqa: BLE001
+                diffs.append(f"worker {w.name}: add_from_json raised {type(e).__name__}: {str(e)[:120]}")
+                continue
+            if (w3.name, w3.productivity) != (w.name, w.productivity) or (w3.cost is None) != (w.cost is None) or \
+                    (w.cost is not None and any(w.cost(v) != w3.cost(v) for v in (0, 1, 4))):
+                diffs.append(f"worker {w.name}: definition changed by to_json + add_from_json: productivity "
+                             f"{w.productivity!r} -> {w3.productivity!r}")
             # tasks are re-created in declaration order, so the task numbers agree and the assertions must be identical
             # (requirement assertions are not part of a task's definition: only compared when the task has none)
             if not t._required_resources and task_assertions(t) != task_assertions(t2):
